@@ -161,6 +161,13 @@ NetPledgeNonNeg(Wd) == ~BIsNeg(Wd.power.pledgeReal)
 \* C01 (miner clause): "each miner holds at least its pre-commit deposits plus vesting funds plus
 \* initial pledge" -- after every successful message
 MinerSolvent(M) == BLeq(BAdd(BAdd(M.pcd, M.locked), M.ip), M.bal)
+\* the same inequality over what the ledgers stand for (the deposits of the outstanding pre-commitments, the vesting
+\* table, the pledge of the sectors that are live or await early-termination processing) rather than over the miner's
+\* own totals: a total that under-counts must not let collateral leave the actor
+MinerSolventRecomputed(M) ==
+  LET tb == Tb(M) IN
+  BLeq(BAdd(BAdd(BSumSeq([i \in Idx(M.pre) |-> M.pre[i].dep]), BSumSeq([i \in Idx(M.vest) |-> M.vest[i][2]])),
+            SumBig((LiveAll(M) \cup EtqSectors(M)) \cap tb.nos, tb.pledge)), M.bal)
 NonNegLedgers(M) == ~BIsNeg(M.pcd) /\ ~BIsNeg(M.locked) /\ ~BIsNeg(M.ip) /\ ~BIsNeg(M.debt)
 
 \* ---- C04: sector numbers are allocated at most once
